@@ -84,7 +84,7 @@ CHECKS.update({
         note="Trusted: Verus/Z3, vstd, walker contract (C01), assumed std contracts (string equality, String::len as uninterpreted byte length, HashSet::extend is union, SourceUnit::clone); parser invariant: string literal expressions are non-empty. The extractor part is bounded (exhaustive on the stated finite domain in thorough tier).",
         technique="contract-based deductive verification (Verus) of the gate functions; exhaustive-over-stated-domain native run of the regex extractor"),
     "C04": dict(level="other",
-        text="Mixed: panic-freedom (every unwrap/expect/index/arithmetic site, loop termination where a decreases clause is given) is a Verus obligation for every function under contract in units ast, slots and det_expr (walker, tables, accessors, 14 detectors and their helpers), for all inputs; all 30 detectors are additionally run under catch_unwind on the totality corpus (no pragma, unreadable versions, free functions, literals to 2^300 with separators/exponents, zero-argument calls, 300 definitions, depth 60) in a build with and a build without overflow checks (bounded).",
+        text="Mixed: panic-freedom (every unwrap/expect/index/arithmetic site, callee preconditions, loop termination where a decreases clause is given, and termination of the recursive tree search) is a Verus obligation for every function under contract, for all inputs: the walker, the kind tables and accessors (unit ast), ALL 30 detectors with their helpers (units slots, det_expr, det_decl, det_gate, det_vuln, det_state, det_incdec, pow2), get_line_number (unit lines) and the three analyze_for_* entry points with pt's Loc::start (unit dispatch). Two pieces reachable from analyze_for_* are outside the contracts and bounded only: the statements before the halving loop of number_literal_is_power_of_two and the regex-based version extractor. All 30 detectors are additionally run under catch_unwind on the totality corpus (no pragma, unreadable versions, free functions, literals to 2^300 with separators/exponents, zero-argument calls, 300 definitions, depth 60) in a build with and a build without overflow checks (bounded).",
         design="§9 C04",
         note="Trusted as for C01/C05/C10; stack exhaustion on deep nesting is not modelled (property bounds nesting at 64). Parser invariants (non-empty string-literal vectors, type sizes) enter as requires-clauses.",
         technique="contract-based deductive verification (Verus: callee preconditions, overflow, bounds) for the functions under contract; bounded totality run for the rest"),
